@@ -85,6 +85,7 @@ func runShapeHistory(c *fw.Ctx) {
 	}
 	pl := v1x.MakePlan(c.Rng, p)
 	v1x.LazyPrefix(pl, c.Index)
+	v1x.EmptyKeyVariant(pl, c.Index)
 	c.Res.Digest = fw.DigestOf("history", pl.Cfg, pl.Summary(1000))
 	if c.Index < 6 {
 		c.Res.Sample = pl.Summary(60)
